@@ -1,5 +1,5 @@
 (* Property C12 -- statements only; every proof is `exact <lemma from Proofs/>`. *)
-From Erbium Require Import Lib.Base Model.DhcpCodec Model.Frame Proofs.DhcpCodec.
+From Erbium Require Import Lib.Base Model.DhcpCodec Model.Frame Proofs.DhcpCodec Proofs.Frame.
 
 (* "its IPv4 destination is the limited broadcast address exactly when the
    client set the broadcast bit (most significant bit of the flags field)" *)
@@ -14,3 +14,51 @@ Proof. exact reply_dest_spec. Qed.
 Check C12_destination : forall flags yiaddr : N,
   reply_dest flags yiaddr = if N.testbit flags 15 then 4294967295 else yiaddr.
 Print Assumptions C12_destination.
+
+(* "The Ethernet/IPv4/UDP frame built around a reply has correct lengths, a
+   verifying IPv4 header checksum and UDP checksum and an unmodified payload":
+   [valid_frame] (Model/Frame.v) is the receiver-side predicate written from
+   RFC 791/768: MAC addresses and ethertype in place, total length, IPv4
+   header checksum verifies (ones-complement sum = 0xffff), UDP length, UDP
+   checksum verifies over the pseudo-header or is the RFC 768 "no checksum"
+   value 0, payload unmodified.  Proved for every payload the length fields
+   can carry (65507 octets), which includes the property's 0..1472. *)
+Theorem C12_frame_valid : forall a : udp4_args,
+  wf_udp4_args a = true -> lenN (u_payload a) <= 65507 ->
+  udp4_build a = Ok (udp4_frame a) /\ valid_frame a (udp4_frame a) = true.
+Proof. exact Proofs.Frame.frame_build_valid. Qed.
+Check C12_frame_valid : forall a : udp4_args,
+  wf_udp4_args a = true -> lenN (u_payload a) <= 65507 ->
+  udp4_build a = Ok (udp4_frame a) /\ valid_frame a (udp4_frame a) = true.
+Print Assumptions C12_frame_valid.
+
+Example C12_frame_valid_nonvacuous :
+  let a := {| u_src_ip := [192; 0; 2; 1]; u_src_port := 67; u_src_mac := [2; 0; 0; 0; 0; 1];
+              u_dst_ip := [255; 255; 255; 255]; u_dst_port := 68; u_dst_mac := [255; 255; 255; 255; 255; 255];
+              u_payload := [1; 2; 3] |} in
+  wf_udp4_args a = true /\ lenN (u_payload a) <= 65507 /\ valid_frame a (udp4_frame a) = true.
+Proof. vm_compute. repeat split; discriminate. Qed.
+
+(* "Any DHCP message survives encoding followed by decoding unchanged,
+   including option values longer than 255 octets and repeated or zero-length
+   options."  [wf_dhcp] (Model/DhcpCodec.v) is what a message must satisfy to
+   be representable at all: field widths, hlen = |chaddr| <= 16, sname/file
+   within 64/128 octets and NUL-free (the wire format is NUL-terminated),
+   option codes other than pad (0) and end (255), one entry per code.  Option
+   values are of ANY length (they are split RFC 3396 style).  The encoder
+   emits the options in the order of the list; the implementation iterates a
+   hash map, i.e. some order -- the theorem holds for every [m], hence for
+   every order of the same option set, and the decoder returns them in that
+   order (equal as maps). *)
+Theorem C12_roundtrip : forall m : dhcp, wf_dhcp m = true -> decode (encode m) = Ok m.
+Proof. exact decode_encode. Qed.
+Check C12_roundtrip : forall m : dhcp, wf_dhcp m = true -> decode (encode m) = Ok m.
+Print Assumptions C12_roundtrip.
+
+Example C12_roundtrip_nonvacuous :
+  let m := {| d_op := 2; d_htype := 1; d_hlen := 6; d_hops := 0; d_xid := 305419896; d_secs := 0;
+              d_flags := 32768; d_ciaddr := 0; d_yiaddr := 3221225985; d_siaddr := 0; d_giaddr := 0;
+              d_chaddr := [2; 0; 0; 0; 0; 1]; d_sname := []; d_file := [98; 111; 111; 116];
+              d_options := [(53, [5]); (43, repeat 7 300); (80, [])] |} in
+  wf_dhcp m = true /\ decode (encode m) = Ok m /\ lenN (encode m) = 550.
+Proof. vm_compute. repeat split; reflexivity. Qed.
